@@ -66,6 +66,8 @@ def run(ctx) -> None:
             parts = set(prog.fold(g.module, ge.generators[0].iter))
             n_lists += 1
             match = [k for k, exp in expected.items() if parts & exp]
+            if not match:
+                continue          # a list about other parts: its variable stays a free atom of the guard's condition
             ctx.require(len(match) == 1, f"is_valid_week_pattern: list {sorted(parts)} mixes part groups")
             k = match[0]
             found[n.targets[0].id] = k
@@ -89,10 +91,12 @@ def run(ctx) -> None:
                 true_reach = true_reach | pc.reach(n.id)
     spec = (var["yy"] & var["vv"]) | (var["gg"] & var["ww"])
     atoms = sorted(found)
-    ctx.check("R1", false_reach.project(atoms).equiv(spec) and true_reach.project(atoms).equiv(~spec),
+    # exact equivalence over *all* branch atoms of the function: any extra condition (e.g. "has a month part")
+    # that lets an incoherent pairing through makes the two sides differ
+    ctx.check("R1", false_reach.equiv(spec) and true_reach.equiv(~spec),
               "is_valid_week_pattern returns False iff (calendar year & ISO week) or (ISO year & Monday/Sunday week)",
-              "v2version.is_valid_week_pattern: rejects the wrong pairings", f"False iff {false_reach.project(atoms).to_dnf()}", loc=g.loc(),
-              witness=false_reach.project(atoms).diff_witness(spec))
+              "v2version.is_valid_week_pattern: rejects the wrong pairings", f"False iff {false_reach.to_dnf()}", loc=g.loc(),
+              witness=false_reach.diff_witness(spec))
 
     # ---------------------------------------------------------------- R2
     inc = prog.function("v2version.incr")
@@ -163,6 +167,32 @@ def run(ctx) -> None:
         ctx.check("R3", a == d and b == d, f"field {f}: cal_info and the parser both use %{d}",
                   f"v2version: calendar field '{f}' is bound to different sources in cal_info ({a}) and the parser ({b}); expected %{d}",
                   f"cal_info: {a}, parser: {b}", loc=ci.loc(), witness={"field": f, "cal_info": a, "parser": b, "expected": d})
+    # two-digit years: both year fields are expanded to four digits when read (cal_info always yields four digits,
+    # and the future guard compares the two)
+    from sa import formats as _formats
+    from checks.c02 import part_tables as _pt
+    _pats, _fields, _fmts = _pt(ctx)
+    short_fields = sorted({_fields[p] for p in _fields if _formats.describe_formatter(_fmts[p]).last2})
+    ctx.floor("R3", "fields with two-digit renderings", len(short_fields), 2)
+    pcf = cfgs.get(pf.fq)
+    ppc = PathCond(pcf)
+    for fld in short_fields:
+        hits = [n for n in pcf.nodes if n.kind == "stmt" and isinstance(n.ast, ast.AugAssign) and unparse(n.ast.target) == fld and isinstance(n.ast.op, ast.Add)
+                and isinstance(n.ast.value, ast.Constant) and n.ast.value.value == 2000 and n.id in pcf.reachable()]
+        ok = False
+        if len(hits) == 1:
+            r = ppc.reach(hits[0].id).drop_unused()
+            lt = [a for a in r.atoms if a.replace(" ", "") in (f"{fld}<1000", f"{fld}<100")]
+            if len(lt) == 1:
+                want = BF.var(lt[0])
+                keep = [lt[0]]
+                if f"{fld} is None" in r.atoms:
+                    want = want & ~BF.var(f"{fld} is None")
+                    keep.append(f"{fld} is None")
+                ok = r.project(keep).equiv(want)
+        ctx.check("R3", ok, f"parser: two-digit '{fld}' is expanded by 2000 (as cal_info yields four-digit years)",
+                  f"v2version.parse_field_values_to_cinfo: two-digit '{fld}' is not expanded to a four-digit year (the future guard compares 22 with 2021)",
+                  f"{len(hits)} expansion statement(s) for {fld}", loc=pf.loc(), witness={"version": "v22.05.1001", "pattern": "vGG.0V.BUILD", "date": "2021-06-01"} if fld == "year_g" else None)
     q = dict(zip([k.value for k in dicts[0].keys], dicts[0].values)).get("quarter")
     ctx.check("R3", q is not None and unparse(q) == f"version.quarter_from_month({ci.params[0]}.month)", "cal_info: quarter = quarter_from_month(date.month)", "v2version.cal_info: quarter source changed", "", loc=ci.loc())
 
